@@ -167,9 +167,11 @@ def coefs_obl(order, core, mult='4.0', onehot=1000, nc=3, np=2, timeout=400, tie
 VR_OPS = {0: 'slew_setup', 1: 'poly_fir_u_step', 2: 'poly_fir_d_step', 4: 'set_io_ratio_during_fade'}
 
 
-def vr_obl(op, slew=None, difbits=20, timeout=400, tiers=('quick', 'thorough')):
+def vr_obl(op, slew=None, difbits=20, timeout=400, tiers=('quick', 'thorough'), fade=None):
     defs = ['-DVF_OP=%d' % op, '-DVF_DIFBITS=%d' % difbits]
     name = 'vr_%s' % VR_OPS[op]
+    if fade is not None:
+        defs.append('-DVF_FADE=%d' % fade); name = name.replace('poly_fir_', 'poly_fir_fade_') + '_vol%d' % fade
     if slew is not None:
         defs.append('-DVF_SLEW=%s' % slew); name += '_len%s_d%d' % (str(slew).rstrip('u'), difbits)
     return Obl(name=name, src='vr_step.c', defs=defs, unwind=5, timeout=timeout, ndebug=False, extra=KISSAT if op in (0, 4) else [], tiers=tiers,
@@ -177,7 +179,7 @@ def vr_obl(op, slew=None, difbits=20, timeout=400, tiers=('quick', 'thorough')):
                bounds=('current step and target below 2^44 (ratios up to 4096 in 32.32) with |target - step| < 2^%d, slew length == %s' % (difbits, slew)) if op == 0 else 'any 32.32 position/step, |step_step| < 2^24, <= 3 output frames, <= 8 input samples',
                stubs=['coefficient tables zero (data only)'],
                ignore_props=[r'set_step_step:\d+ arithmetic overflow on signed type conversion in \(signed int\)dif'],
-               funcs=['vr32.c:set_step_step', 'vr32.c:set_step', 'vr32.c:poly_fir_u', 'vr32.c:poly_fir_d'])
+               funcs=['vr32.c:set_step_step', 'vr32.c:set_step', 'vr32.c:poly_fir_u', 'vr32.c:poly_fir_d', 'vr32.c:poly_fir_fade_u', 'vr32.c:poly_fir_fade_d'])
 
 
 VR_SWITCH_REPL = ['poly_fir_fade_d:vf_fade_kernel_none', 'poly_fir_fade_u:vf_fade_kernel_none', 'poly_fir_d:vf_kernel_none', 'poly_fir_u:vf_kernel_none',
